@@ -587,8 +587,7 @@ namespace plan
       if (m.classes.empty())
         return;
       int c = static_cast<int>(modn(op.arg(0), m.classes.size()));
-      if (m.classes[c].is_sv)
-        return;
+      // (also over state-variable and agent classes: an atom stated on such a variable has an open tau, decided by the search)
       // an object variable needs at least one instance (otherwise the reader rejects it)
       bool any = false;
       for (auto &i : m.insts)
@@ -1116,8 +1115,7 @@ namespace plan
         // the scope is an instance or, one time in three when there is one, an object variable over the class: the atom's
         // tau is then decided by the search (unification must respect it; placement/forbid resolvers of state variables)
         std::vector<std::string> vcands;
-        if (!m.classes[m.preds[p].cls].is_sv)
-          for (auto &v : m.ovars)
+        for (auto &v : m.ovars)
             if (m.is_subclass(v.cls, m.preds[p].cls))
               vcands.push_back(v.name);
         if (!vcands.empty() && modn(op.arg(pos) / 7, 3) == 0)
